@@ -317,11 +317,11 @@ def variants_leg(ck, servers, rnd, tier):
     `OpenSSH_<version>` form: the follow-up probe and the fallback note depend on the server being OpenSSH, not on the form."""
     cases, cfgs, meta = [], [], []
 
-    def add(kex_algs, moduli, style, banner, dh, what, asked=None):
-        c = rating.mk_case(len(cases) + 1, kex=['curve25519-sha256'] + kex_algs, key=['ssh-ed25519'], enc=['aes128-ctr'], mac=['hmac-sha2-256'], dh=dh, banner=banner)
+    def add(kex_algs, moduli, style, banner, dh, what, asked=None, enc=('aes128-ctr',), mac=('hmac-sha2-256',)):
+        c = rating.mk_case(len(cases) + 1, kex=['curve25519-sha256'] + kex_algs, key=['ssh-ed25519'], enc=list(enc), mac=list(mac), dh=dh, banner=banner)
         cases.append(c)
-        cfgs.append(peers.ServerCfg(banner=banner.encode(), kexinit={'kex': ['curve25519-sha256'] + kex_algs, 'key': ['ssh-ed25519'], 'enc': ['aes128-ctr'],
-                                                                     'mac': ['hmac-sha2-256'], 'comp': ['none']},
+        cfgs.append(peers.ServerCfg(banner=banner.encode(), kexinit={'kex': ['curve25519-sha256'] + kex_algs, 'key': ['ssh-ed25519'], 'enc': list(enc),
+                                                                     'mac': list(mac), 'comp': ['none']},
                                     hostkeys={'ssh-ed25519': peers.ed25519_blob()}, gex={'style': style, 'moduli': list(moduli)}))
         meta.append((what, asked))
     for m in (1023, 1025, 2047, 2049, 3071, 3073, 4095, 8191):
@@ -333,6 +333,12 @@ def variants_leg(ck, servers, rnd, tier):
             smallest = min(moduli)
             add([GEX1, GEX256], moduli, style, 'SSH-2.0-Generic_1.0', {a: (smallest, False) for a in (GEX1, GEX256)}, 'debug-before-group')
             cfgs[-1]['debug_kinds'] = {'gexgroup': k, 'gexreply': k}
+    # servers that negotiate (RFC 4253 7.1: a client sharing no cipher / compression method with them is disconnected) and offer lists a
+    # client would not guess: the probes reach them all the same
+    for enc, mac in ((('aes128-cbc', '3des-cbc'), ('hmac-sha1',)), (('twofish256-cbc',), ('hmac-ripemd160',)), (('aes128-ctr',), ('hmac-sha2-256',))):
+        for moduli, style in (([1024, 2048], 'strict'), ([1024], 'roundup'), ([4096], 'roundup')):
+            add([GEX1, GEX256], moduli, style, 'SSH-2.0-Generic_1.0', {a: (min(moduli), False) for a in (GEX1, GEX256)}, 'negotiating-server', enc=enc, mac=mac)
+            cfgs[-1]['negotiate'] = True
     fb = [k for k in sorted(servers) if k[2] and k[1] == 'openssh' and servers[k]['reported'] and all(v['fallback'] for v in servers[k]['reported'].values())]
     for k in rnd.sample(fb, min(len(fb), 6 if tier == 'quick' else 40)):
         e = servers[k]
